@@ -392,10 +392,69 @@ def strictly_separated(w, r):
 
 
 def gen_cases(tier, seed):
+    # depth-2 histories on the data object: nvecs, edit one entry of the same object in place, nvecs again
+    for shape in _shapes(tier)[: (None if tier == "thorough" else 8)]:
+        for fam in ("generic", "counts"):
+            d = [m for m in _members(shape, tier, seed) if m["fam"] == fam][0]
+            for kind in ("tensor", "sptensor"):
+                yield {"check": "rerun", "data": d, "kind": kind, "tier": tier}
     for shape in _shapes(tier):
         for d in _members(shape, tier, seed):
             for n in range(len(shape)):
                 yield {"check": "nvecs", "data": d, "n": n, "tier": tier}
+
+
+def _run_rerun(case, ctx):
+    """The second call must be the call a fresh object storing the same entries gets: nothing derived from the data
+    before the edit (a memoised Gram matrix or unfolding) may survive it."""
+    import pyttb as ttb
+
+    d, kind = case["data"], case["kind"]
+    A = data_array(d)
+    shape = A.shape
+    if kind == "sptensor" and (max(shape) == 1 or not np.any(A)):
+        ctx.inadm()
+        return
+    cells = rm.cells(shape)
+    ctx.state()
+    for n in range(len(shape)):
+        for r in sorted({1, shape[n]}):
+            for edit in ("bump", "fill"):
+                X = build_holder("tensor:F" if kind == "tensor" else "sptensor:id", d, A)
+                zeros = [c for c in cells if A[c] == 0]
+                cell = cells[-1] if edit == "bump" or not zeros else zeros[0]
+                val = float(A[cell] + 5.0)
+                sub = dict(case, n=n, r=r, edit=edit)
+                ctx.tick()
+                try:
+                    with FixedArpackStart(1 + 3 * n + 7 * r, ctx, kind):
+                        X.nvecs(n, r)
+                        X[cell] = val
+                        V2 = X.nvecs(n, r)
+                        if kind == "tensor":
+                            Y = ttb.tensor(np.array(X.data, copy=True, order="F"))
+                        else:
+                            Y = ttb.sptensor(X.subs.copy(), X.vals.copy(), X.shape)
+                        V3 = Y.nvecs(n, r)
+                except Exception as e:  # noqa: BLE001
+                    ctx.inadm()
+                    ctx.count("rerun_raised:" + type(e).__name__)
+                    continue
+                B = A.copy()
+                B[cell] = val
+                if not rm.same(O.dense_of(X), B):
+                    ctx.fail(kind + ".__setitem__", "wrong_value", "the edited object does not hold the edited entries",
+                             variant="rerun", case=sub)
+                    continue
+                ctx.nontriv()
+                V2, V3 = np.asarray(V2), np.asarray(V3)
+                if V2.shape != V3.shape or not np.allclose(V2, V3, rtol=0, atol=1e-10, equal_nan=True):
+                    dev = float(np.max(np.abs(V2 - V3))) if V2.shape == V3.shape else float("inf")
+                    ctx.fail(kind + ".nvecs", "history_dependent",
+                             f"shape={list(shape)} n={n} r={r}: nvecs on an object edited in place after an earlier nvecs "
+                             f"differs from nvecs on a fresh object with the same entries (max deviation {dev!r})",
+                             variant="rerun", case=sub)
+                ctx.outcome(V2)
 
 
 def run_case(case, ctx):
